@@ -51,15 +51,17 @@ CONFIG = {
         "the model is the code only as far as the correspondence run shows",
         "alias options are read as the tool documents them: an aliased key, an aliased value or a merged-in key hides "
         "itself and everything beneath it unless the matching option is on; the first occurrence of an anchored "
-        "node in document order (by anchor name) is the original, wherever it stands - also beneath a matched key "
-        "or beneath the value of an excluded aliased key, which the search does not enter",
+        "node in document order (by anchor name) is the original, wherever it stands - also beneath a matched key, "
+        "beneath the value of an excluded aliased key, or inside a merged-in entry hidden by the options (an inline "
+        "merge source), none of which the search enters",
         "a null document is empty: it has no places (the Processor yields no node for any path on it)",
         "document well-formedness doc_wf (the hypothesis of C07_alias_excluded_wf_partial, from which the former "
         "assumption shared_closed is proved): evaluated on EVERY encoded document - the extracted "
-        "same_oid_same_tree / c07_keys_leaf / merged_closed (request paths-docwf) against an independent evaluation "
-        "on the real object graph; a false same_oid_same_tree or c07_keys_leaf is reported as a broken assumption; "
-        "merged_closed is false only for a merge source that is an inline mapping first defining an anchor "
-        "(bucket merge-inlinemerge, corpus case)",
+        "same_oid_same_tree / c07_keys_leaf (request paths-docwf) against an independent evaluation "
+        "on the real object graph; a false one is reported as a broken assumption.  (Its former third part "
+        "merged_closed is gone: the search records the anchors of the merged-in entries it hides; documents whose "
+        "merge source is an inline mapping first defining an anchor are generated on purpose, bucket "
+        "merge-inlinemerge)",
     ],
 }
 
@@ -383,7 +385,7 @@ def requests(case):
         if term.method is _E["REGEX"]:
             ret = oracles.re_table([(term.term, t) for h in hs for t in hay_texts(h)])
     return ["(paths %s %s %s %s %s %s %s)" % (sx, mt, hexs(expr), sep, opts_sexp(o), lit, ret),
-            "(paths-docwf %s %s)" % (sx, mt)]
+            "(paths-docwf %s)" % sx]
 
 
 _RUNS = OrderedDict()
@@ -477,9 +479,8 @@ def _inner_occs(x):
 
 
 def doc_wf_real(text, data):
-    """(same_oid_same_tree, keys_leaf, merged_closed) evaluated on the REAL loaded document, independently of
-    the model: one object = one encoded tree wherever it stands; keys / members are scalars to the encoder;
-    every merged-in entry holds only anchored objects met earlier in document order."""
+    """(same_oid_same_tree, keys_leaf) evaluated on the REAL loaded document, independently of the model: one
+    object = one encoded tree wherever it stands; keys / members are scalars to the encoder."""
     r = _WF.get(text)
     if r is not None:
         return r
@@ -507,7 +508,25 @@ def doc_wf_real(text, data):
             return all(e[0] == "L" for e in sx[5])
         return True
     kl = keys_leaf(docenc.sexp_parse(enc.node(data)))
-    # (3) merged-in entries hold objects met before
+    r = (same, kl)
+    _WF[text] = r
+    return r
+
+
+_IM = {}
+
+
+def inline_merge_def(text, data):
+    """Does a merged-in entry hold an anchored object NOT met earlier in document order - i.e. is some anchor
+    first defined inside an inline merge source (`<<: {k: &v x}`)?  Only for the input-distribution report
+    (bucket merge-inlinemerge): these are the documents on which the search must record the anchors of the
+    merged-in entries it hides (the former doc_wf part merged_closed was false of them)."""
+    r = _IM.get(text)
+    if r is not None:
+        return r
+    if len(_IM) > 4000:
+        _IM.clear()
+    ga = _E["Anchors"].get_node_anchor
     seen = set()
     closed = [True]
 
@@ -535,8 +554,8 @@ def doc_wf_real(text, data):
                 if ga(m):
                     seen.add(id(m))
     walk(data)
-    r = (same, kl, closed[0])
-    _WF[text] = r
+    r = not closed[0]
+    _IM[text] = r
     return r
 
 
@@ -580,8 +599,9 @@ def expected_places(data, term, o):
         return False
 
     def record(x):
-        """The anchors beneath a node that is not searched (the value of an excluded aliased key) are met
-        all the same: an alias of one of them, later in the document, is an aliased repeat."""
+        """The anchors beneath a node that is not searched (the value of an excluded aliased key, a merged-in
+        entry hidden by the options) are met all the same: an alias of one of them, later in the document, is
+        an aliased repeat."""
         if is_map(x):
             for k, v in x.items():
                 is_alias(k)
@@ -603,6 +623,7 @@ def expected_places(data, term, o):
                 ka = is_alias(k)
                 va = is_alias(v)
                 if k in mk and not (kalias or valias):
+                    record(v)
                     continue
                 if (ka and not kalias) or (va and not valias):
                     record(v)
@@ -631,10 +652,13 @@ def expected_places(data, term, o):
         if is_map(x):
             mk = merged_keys(x)
             for k, v in x.items():
-                if k in mk and not (kalias or valias):
-                    continue
                 ka = is_alias(k)
                 va = is_alias(v)
+                if k in mk and not (kalias or valias):
+                    # a hidden merged-in entry is part of the document all the same: an anchor first defined
+                    # in it (an inline merge source) is the original, its later aliases are aliased repeats
+                    record(v)
+                    continue
                 if ka and not kalias:
                     record(v)
                     continue
@@ -899,7 +923,7 @@ def judge(case, obs):
         return None
     if is_print(case):
         return print_judge(case)
-    if len(obs) > 1 and obs[1].startswith("(ok (") and not obs[1].startswith("(ok (true true "):
+    if len(obs) > 1 and obs[1].startswith("(ok (") and obs[1] != "(ok (true true))":
         return ("assumption broken: the document well-formedness doc_wf (same object = same tree, scalar keys) "
                 "fails on a loaded document: %s" % obs[1])
     d = discrepancies(case)
@@ -937,8 +961,10 @@ def classify(case, obs):
     fam = "anch" if ("&" in text or "*" in text) else "plain"
     if "<<" in text:
         fam = "merge"
-    if len(obs) > 1 and obs[1].endswith(" false))"):
-        fam += "-inlinemerge"       # merged_closed false: a merge source that first defines an anchor
+    if "<<" in text:
+        st, data = load(text)
+        if st == "ok" and inline_merge_def(text, data):
+            fam += "-inlinemerge"   # an inline merge source that first defines an anchor
     mode = ("V" if o[0] else "") + ("K" if o[1] else "") + ("a" if o[2] else "") + \
            ("k" if o[3] else "") + ("v" if o[4] else "") + ("x" if o[5] else "")
     return "%s:%s:%s:%s" % (fam, sep, mode, k)
@@ -1125,6 +1151,17 @@ ANCHOR_DOCS = [
     "{x: {&k a: 1}, y: {*k : [&n a, {j: &m {a: a}}]}, z: [*n, *m]}",
     "{x: {&k a: 1}, y: {*k : !!set {&s a}}, z: *s}",
     "[{a: &w {a: &v a}}, *w, *v]",
+    # ... and inside a merged-in entry hidden by the options: the merge source is an INLINE mapping that first
+    # defines the anchor (plain, beside an own alias of it, overridden by an own key, itself anchored, nested,
+    # one of several sources, an anchored key, inside a sequence, beneath a matched key with --expand)
+    "{a: {<<: {k: &v a}}, b: *v}",
+    "{a: {<<: {k: &v a}, j: *v}, b: *v}",
+    "{a: {<<: {k: &v a}, k: 1}, b: *v}",
+    "{a: {<<: &m {k: &v a}}, b: *m, c: *v}",
+    "{t: {a: {<<: {k: {q: &v a}}}, z: *v}, w: *v}",
+    "{x: &x {j: a}, a: {<<: [*x, {k: &v a}, {l: &w [a, 1]}]}, b: *v, c: *w}",
+    "{a: {<<: {&k a: 1}}, b: {*k : a}}",
+    "[{<<: {k: &v a}}, *v, {k: *v}]",
     "&x a",
     "&x 1",
     "a",
@@ -1172,7 +1209,21 @@ def rand_doc(rng, depth, anchors, budget):
             ents = []
             used = set()
             mapanchors = [a for a, k in anchors.items() if k == "m"]
-            if mapanchors and rng.random() < 0.3:
+            if d > 0 and rng.random() < 0.12:
+                # an INLINE merge source (now and then itself anchored): the anchors it defines stand in
+                # merged-in entries, which the default alias options hide
+                mpre = ""
+                mname = None
+                if rng.random() < 0.25 and len(anchors) < 5:
+                    mname = "m" + str(len(anchors))
+                    mpre = "&%s " % mname
+                inner = []
+                for k in _take(rng, ["k", "j", "m", "a"], rng.randint(1, 2)):
+                    inner.append("%s: %s" % (k, node(d - 1)))
+                if mname:
+                    anchors[mname] = "m"
+                ents.append("<<: %s{%s}" % (mpre, ", ".join(inner)))
+            elif mapanchors and rng.random() < 0.3:
                 ents.append("<<: *%s" % rng.choice(mapanchors))
             for _ in range(n):
                 k = rng.choice(PLAIN_KEYS + ["j", "m", "a.b", "c d"])
@@ -1312,10 +1363,13 @@ def corpus_chunks():
         ("{a: &x {k: v}, b: {<<: *x}}", "=x", "dot", (True, False, True, False, True, False)),
         ('[{1: [&w0 {"c d": b, "a.b": &w0 1.5}, *w0]}, [true, \'a b\'], 2]', "$1", "slash",
          (True, True, False, True, True, True)),                          # thorough-tier find
-        # merged_closed false (C07_inline_merge_refuted): the merge source is an inline mapping that first
-        # defines &v; the alias b is reported (the judge's reading takes a hidden merged-in entry out of the
-        # document and accepts it); and the same merge through an alias, where doc_wf holds
-        ("a: {<<: {k: &v hit}}\nb: *v\n", "=hit", "dot", a),
+        # fixed (was C07_inline_merge_refuted): the merge source is an inline mapping that first defines &v; the
+        # hidden merged-in entry is walked by record_anchors, the alias b is no longer reported; beneath a matched
+        # key with --expand (yield_children); and the same merge through an alias
+        ("a: {<<: {k: &v hit}}\nb: *v\n", "=hit", "dot", a), ("a: {<<: {k: &v hit}}\nb: *v\n", "=hit", "slash", a),
+        ("a: {<<: {k: &v hit}}\nb: *v\n", "=hit", "dot", d),
+        ("top: {a: {<<: {k: &v hit}}, z: *v}\nw: *v\n", "=top", "dot", (True, True, False, False, False, True)),
+        ("a: {<<: {k: &v hit}, j: *v}\nb: *v\n", "=hit", "dot", a),
         ("x: &m {k: &v hit}\na: {<<: *m}\nb: *v\n", "=hit", "dot", a),
     ]
     return [cases]
